@@ -15,7 +15,7 @@
 (***************************************************************************)
 EXTENDS Sequences, Naturals, FiniteSets, TLC, Json
 
-CONSTANTS MaxLen, MaxHandles, GenClasses, MaxKids, Ops
+CONSTANTS MaxLen, MaxHandles, GenClasses, MaxKids, Ops, Modes, DupModes, Atoms
 
 VARIABLES prog, cls      \* the program so far; class of each handle
 vars == <<prog, cls>>
@@ -32,8 +32,7 @@ KidLists(c) ==
     ELSE IF c = "LOpt" THEN {<<>>} \cup {<<x>> : x \in {y \in H : IsLeaf(cls[y])}}
     ELSE UNION {[1..n -> H] : n \in 0..MaxKids}          \* LMany.items / LList.elems
 
-Modes == {"plain", "detached", "unique"}
-Creates == {Op("create", c, 0, 0, <<>>, at, m) : c \in {x \in GenClasses : IsLeaf(x)}, at \in {0, 1}, m \in Modes}
+Creates == {Op("create", c, 0, 0, <<>>, at, m) : c \in {x \in GenClasses : IsLeaf(x)}, at \in Atoms, m \in Modes}
            \cup UNION {{Op("create", c, 0, 0, k, 0, m) : k \in KidLists(c), m \in Modes} : c \in {x \in GenClasses : ~IsLeaf(x)}}
 
 Step(o) ==
@@ -51,12 +50,12 @@ Next ==
          \/ Step(Op("attach", "", a, 0, <<>>, 0, ""))
          \/ Step(Op("detach", "", a, 0, <<>>, 0, ""))
          \/ Step(Op("detach_self", "", a, 0, <<>>, 0, ""))
-         \/ IsLeaf(cls[a]) /\ \E at \in {0, 1} : Step(Op("replace_prop", "", a, 0, <<>>, at, ""))
+         \/ IsLeaf(cls[a]) /\ \E at \in Atoms : Step(Op("replace_prop", "", a, 0, <<>>, at, ""))
          \/ ~IsLeaf(cls[a]) /\ \E k \in KidLists(cls[a]) : Step(Op("replace_kids", "", a, 0, k, 0, ""))
          \/ Step(Op("replace_bad", "", a, 0, <<>>, 0, ""))
          \/ \E b \in H \ {a} : Step(Op("replace_with", "", a, b, <<>>, 0, ""))
          \/ Step(Op("replace_with_none", "", a, 0, <<>>, 0, ""))
-         \/ \E d \in {"attached", "detached"} : Step(Op("duplicate", "", a, 0, <<>>, 0, d))
+         \/ \E d \in DupModes : Step(Op("duplicate", "", a, 0, <<>>, 0, d))
 
 Init == prog = <<>> /\ cls = <<>>
 
